@@ -3,6 +3,7 @@ package checks
 import (
 	"encoding/json"
 	"fmt"
+	"math/rand"
 	"os"
 	"path/filepath"
 	"strings"
@@ -98,6 +99,7 @@ func C08(c *vf.Check) {
 		}
 	}
 	bindingSelfTest(c, "C08", cases[len(cases)/2].Obs, keys)
+	randomLargerTerms(c, keys, tier(c, 1500, 30000))
 	traceRuntimeEvents(c, terms.vals, jobs)
 
 	c.Cov["states"] = res.Distinct
@@ -193,4 +195,64 @@ func traceRuntimeEvents(c *vf.Check, terms []any, jobs []termJob) {
 	c.Cov["runtime_events_validated"] = int64(total)
 	c.Sample(J{"runtime_event_trace": sample})
 	c.Note("trace validation (Trace_Seq.tla): %d internal runtime events of the repository's tests / examples and of sampled terms accepted (%d trace files)", total, len(files))
+}
+
+// randomLargerTerms: terms of size 5..12 derived from seeded choice tapes by MC_RndSeq.tla
+// (same grammar, same invariants), replayed on the real runtime like the exhaustive ones.
+func randomLargerTerms(c *vf.Check, keys []string, n int) {
+	rnd := rand.New(rand.NewSource(c.Seed*104729 + 7))
+	var sb strings.Builder
+	for i := 0; i < n; i++ {
+		size := 5 + rnd.Intn(8)
+		ch := make([]int, 70)
+		for j := range ch {
+			ch[j] = rnd.Intn(60)
+		}
+		tape := make([]bool, rnd.Intn(8))
+		for j := range tape {
+			tape[j] = rnd.Float64() < 0.6
+		}
+		b, _ := json.Marshal(J{"size": size, "ch": ch, "tape": tape})
+		sb.Write(b)
+		sb.WriteByte('\n')
+	}
+	f := filepath.Join(c.S.Sub("choices"), "choices.ndjson")
+	writeFile(f, sb.String())
+	var cases []termCase
+	res := c.S.RunTLC(vf.TLCRun{Module: "MC_RndSeq", Cfg: "MC_RndSeq.cfg", Env: []string{"VERIF_CHOICES=" + f}, Timeout: 60 * time.Minute,
+		OnCase: func(raw []byte) {
+			var tc termCase
+			vf.Must(json.Unmarshal(raw, &tc))
+			cases = append(cases, tc)
+		}})
+	res.MustComplete("MC_RndSeq")
+	terms := newUniq()
+	var jobs []termJob
+	for _, tc := range cases {
+		ops := make([]termOp, 0, len(tc.Obs))
+		for range tc.Obs {
+			ops = append(ops, termOp{Op: "next"})
+		}
+		jobs = append(jobs, termJob{Idx: terms.add(tc.Term), Tape: boolTape(tc.Tape), Budget: 60, Ops: ops})
+	}
+	outs := runTerms(c, terms.vals, jobs)
+	bad := 0
+	for i, tc := range cases {
+		if outs[i].Status == "notrun" {
+			continue
+		}
+		exp := normEvents(tc.Obs, keys...)
+		got := "driver status: " + outs[i].Status
+		if outs[i].Status == "ok" {
+			got = normEvents(outs[i].Evs, keys...)
+		}
+		if exp != got {
+			bad++
+			c.Violation(J{"family": "T_term(derived)", "term": tc.Term, "tape": tc.Tape, "expected": json.RawMessage(exp), "actual": got, "go": renderTerm(tc.Term)},
+				fmt.Sprintf("derived term %s tape=%s\n  spec: %s\n  real: %s", renderTerm(tc.Term), canon(tc.Tape), exp, got))
+		}
+	}
+	c.Note("derived larger terms (size 5..12, seed %d): %d terms, %d cases, RefAgree holds on all (TLC), %d divergences on the real runtime", c.Seed, len(terms.vals), len(cases), bad)
+	c.Add("random_terms", int64(len(terms.vals)))
+	c.Add("random_term_cases", int64(len(cases)))
 }
